@@ -663,9 +663,9 @@ def check(ctx):
         cases = ([dict(hist=c["hist"], final=c["final"]) for c in corpus] + [dict(hist=[], final=f) for f in all_finals()] + fort +
                  [gen_case(ctx.rng) for _ in range(n)] + ops_directed() + [gen_ops_case(ctx.rng) for _ in range(6 if ctx.tier == "quick" else 80)] +
                  deco_directed() + [gen_deco_case(ctx.rng) for _ in range(4 if ctx.tier == "quick" else 40)] +
-                 inputs_directed() + [gen_inputs_case(ctx.rng) for _ in range(16 if ctx.tier == "quick" else 200)] +
-                 consts_directed() + [gen_consts_case(ctx.rng) for _ in range(8 if ctx.tier == "quick" else 120)] +
-                 jax_directed() + [gen_jax_case(ctx.rng) for _ in range(2 if ctx.tier == "quick" else 30)])
+                 inputs_directed() + [gen_inputs_case(ctx.rng) for _ in range(12 if ctx.tier == "quick" else 200)] +
+                 consts_directed() + [gen_consts_case(ctx.rng) for _ in range(6 if ctx.tier == "quick" else 120)] +
+                 jax_directed() + [gen_jax_case(ctx.rng) for _ in range(1 if ctx.tier == "quick" else 30)])
     ev = evaluate(ctx, cases, "main")
     outs, gv = ev["outs"], ev["guard_viol"]
     if ev["fresh_bad"]:
